@@ -24,7 +24,7 @@ BUDGET = {'quick': 170, 'thorough': 1500}
 CHUNK = {'quick': 10, 'thorough': 40}
 CASE_TIMEOUT = 300
 REQUIRED = ['steps_law_checked', 'scan_thresholds_checked', 'selections_checked', 'thresholds_checked', 'clock_draws_checked',
-            'terminations_checked', 'outputs_match_tracked_events', 'e3_states_expanded', 'directed_runs', 'rate_function_calls_checked', 'defaultdict_IC_runs']
+            'terminations_checked', 'outputs_match_tracked_events', 'e3_states_expanded', 'directed_runs', 'rate_function_calls_checked', 'defaultdict_IC_runs', 'endurance_runs_completed']
 
 
 def gen_cases(tier, seed):
@@ -53,6 +53,20 @@ def gen_cases(tier, seed):
             c['IC'] = [r.randrange(k2) for _ in range(g['n'])]
         c['tmax'] = c['tmin'] + r.choice([0.5, 2.0, 5.0])
         out.append(c)
+    # endure: a weighted selection that sees K consecutive rejections (positive probability whenever weights differ)
+    for j in range(12 if q else 60):
+        cs = case_seed(seed, PID + 'endure', j)
+        r = random.Random(cs)
+        desc = gen.random_graph(r, 5, 10, kinds=['gnp', 'cycle', 'star', 'tree', 'regular'])
+        desc['labels'] = r.choice(gen.LABEL_SCHEMES)
+        name = r.choice(['SIS', 'SIR', 'SIRS', 'SEIR', 'compete'])
+        sp = specs.spec(name, r)
+        ks = len(sp['statuses'])
+        desc['ew'] = {'ew_': gen.weights(r, len(desc['edges']), 'nondyadic')}
+        desc['nw'] = {'nw_': [r.choice([0.1, 0.2, 0.3, 0.7, 1.1, 1.3, 2.3]) for _ in range(desc['n'])]}
+        out.append({'kind': 'endure', 'sim': 'Gillespie_simple_contagion', 'graph': desc, 'spec': sp, 'spec_name': name, 'weight_form': r.choice(['label', 'function']),
+                    'IC': [r.choice([1, 1, 0]) if name != 'compete' else r.choice([1, 2]) for _ in range(desc['n'])], 'return_idx': list(range(ks)), 'tmin': 0, 'tmax': 1000.0,
+                    'full': True, 'seed': cs, 'K': r.choice([150, 1500, 15000] if q else [150, 1500, 15000, 120000])})
     # e3
     names = ['SIS', 'SIR', 'SIRS', 'SEIR', 'compete', 'voter', 'same_inducer', 'multi_out', 'random']
     graphs = [dict(g) for g in gen.atlas(3)]
@@ -117,6 +131,96 @@ def _rate_fn_calls_ok(call, calls, res, tag):
     return True
 
 
+class _RejectDriver(rngprobe.Driver):
+    """keeps proposing one candidate whose accept test is a genuine decision and rejects it K times in a row (a path of positive
+    probability), then accepts; every other decision takes its first option."""
+    def __init__(self, K):
+        rngprobe.Driver.__init__(self, (), max_decisions=6 * K + 2000)
+        self.K = K
+        self.j = 0
+        self.rejections = 0
+        self.after_choice = False
+        self.n = 0
+        self.done_at = None
+
+    def decide(self, kind, probs, info=None):
+        self.n += 1
+        if self.n > self.max_decisions or (self.done_at is not None and self.n > self.done_at + 12):
+            raise rngprobe.DepthExceeded()
+        self.decisions.append(None)
+        if kind == 'choice':
+            self.after_choice = True
+            if self.rejections == 0:
+                self.j += 1          # still looking for a candidate that can be rejected
+            return self.j % len(probs)
+        if kind == 'cmp' and self.after_choice:
+            self.after_choice = False
+            if self.rejections < self.K:
+                self.rejections += 1
+                return 1
+            if self.done_at is None:
+                self.done_at = self.n
+            return 0
+        self.after_choice = False
+        return 0
+
+
+def run_endure(case, call, oracle, res, tag):
+    """a run in which one weighted selection sees K consecutive rejections before a candidate is accepted"""
+    from ..markov import SelectionAbandoned
+    from .c18 import Tripwires
+    import numpy as np
+    K = case['K']
+    d = _RejectDriver(K)
+    fails, counters = [], {}
+    npcalls = [0]
+    saved_np = {}
+    for nm in ('random', 'random_sample', 'rand', 'uniform', 'choice', 'exponential', 'randint', 'multinomial', 'permutation', 'shuffle'):
+        f0 = getattr(np.random, nm)
+        saved_np[nm] = f0
+
+        def w(*a, _f=f0, **k):
+            npcalls[0] += 1
+            return _f(*a, **k)
+        setattr(np.random, nm, w)
+    try:
+        with rngprobe.monitor(driver=d) as px:         # (the proxy builds its own generators: outside the tripwires)
+            px.min_prob = 0.0
+            with Tripwires() as tw:
+                try:
+                    call.f(*call.args, **call.kw)
+                except rngprobe.DepthExceeded:
+                    pass
+    except Exception as e:
+        viol(res, tag + '|endure|exception:%s' % simcase.exc_key(e), {'err': repr(e)})
+        return res
+    finally:
+        for nm, f0 in saved_np.items():
+            setattr(np.random, nm, f0)
+    bump(res, 'endurance_runs')
+    if d.rejections < K:
+        bump(res, 'endurance_runs_without_rejectable_candidate')
+        return res
+    try:
+        generic_e2.e2_simple(oracle, call.IC, call.tmin, call.tmax, px.log, fails, counters, partial=True)
+    except SelectionAbandoned as e:
+        if tw.hits or npcalls[0]:
+            bump(res, 'alternative_sampling_path_seen')      # randomness the proxy does not see was consumed: another algorithm, not judged here
+            return res
+        viol(res, tag + '|selection_abandoned_without_accepting_a_candidate', {'consecutive_rejections_before_giving_up': len(e.props), 'K_driven': K,
+                                                                              'spec': case.get('spec_name')})
+        return res
+    except ParseError as e:
+        res['inconclusive'] = 'draw protocol of Gillespie_simple_contagion not recognised: %s' % e
+        return res
+    for pred, det in fails[:2]:
+        viol(res, tag + '|endure|' + pred, dict(det, spec=case.get('spec_name')))
+    bump(res, 'endurance_runs_completed')
+    res['nontrivial'] = 'endure:%s:%s:%s' % (case.get('spec_name'), K, gen.iso_key(case['graph']))
+    res['sample'] = {'kind': 'endure', 'spec': case.get('spec_name'), 'graph': case['graph'], 'consecutive_rejections': K}
+    return res
+
+
 def run_case(case):
     res = new_result()
     call = simreg.build_call(case)
@@ -170,6 +274,8 @@ def run_case(case):
             res['sample'] = {'kind': 'e2', 'spec': case.get('spec_name'), 'weight_form': wf, 'directed': call.G.is_directed(), 'graph': case['graph'],
                              'events': len(events), 'first_events': [[e[0], repr(e[1]), repr(e[2]), repr(e[3]), repr(e[4])] for e in events[:3]]}
         return res
+    if case['kind'] == 'endure':
+        return run_endure(case, call, oracle, res, tag)
     # ---- e3
     visited = set()
     allfails = []
